@@ -70,9 +70,28 @@ fn laws_generic<T: PartialOrd + Clone + Debug>(a: T, b: T, obs: &mut Obs) -> PRe
         }
     }
     for (i, l, r, kind) in all {
-        obs.evals(10);
+        obs.evals(14);
         ensure!(i.low() == l && i.left() == l.as_ref() && i.low_as_ref() == l.as_ref(), format!("C14/accessor_low/{kind}"), "{i:?}: low()={:?} left()={:?} expected {l:?}", i.low(), i.left());
         ensure!(i.high() == r && i.right() == r.as_ref() && i.high_as_ref() == r.as_ref(), format!("C14/accessor_high/{kind}"), "{i:?}: high()={:?} right()={:?} expected {r:?}", i.high(), i.right());
+        // the std::ops::RangeBounds view exposes exactly the stored bounds, closed on the bounded sides (round 11)
+        {
+            use std::ops::{Bound, RangeBounds};
+            let want_s = match l.as_ref() {
+                Some(x) => Bound::Included(x),
+                None => Bound::Unbounded,
+            };
+            let want_e = match r.as_ref() {
+                Some(x) => Bound::Included(x),
+                None => Bound::Unbounded,
+            };
+            ensure!(i.start_bound() == want_s, format!("C14/range_bounds/start/{kind}"), "{i:?}: start_bound() = {:?}, expected {want_s:?}", i.start_bound());
+            ensure!(i.end_bound() == want_e, format!("C14/range_bounds/end/{kind}"), "{i:?}: end_bound() = {:?}, expected {want_e:?}", i.end_bound());
+            for p in [&a, &b] {
+                let inside = l.as_ref().map_or(true, |x| x <= p) && r.as_ref().map_or(true, |x| p <= x);
+                let got = <Interval<T> as RangeBounds<T>>::contains(&i, p);
+                ensure!(got == inside, format!("C14/range_bounds/contains/{kind}"), "RangeBounds::contains({i:?}, {p:?}) = {got}, the stored bounds say {inside}");
+            }
+        }
         let preds = (i.is_two_sided(), i.is_upper(), i.is_lower(), i.is_one_sided());
         let want = (kind == "two", kind == "upper", kind == "lower", kind != "two");
         ensure!(preds == want, format!("C14/kind_predicates/{kind}"), "{i:?}: (two, upper, lower, one_sided) = {preds:?}");
